@@ -298,33 +298,57 @@ harnesses! { REG_C06X, "C06", "extra";
 
 // ---------------- C11: the normal forms are exact inside the principal range ----------------
 macro_rules! principal {
-    ($reg:ident; $( $name:ident : $h:ident ),*) => {
+    ($reg:ident; $( $tier:ident $sd:ident $ud:ident $sr:ident $ur:ident : $h:ident ),*) => {
         harnesses! { $reg, "C11", "extra";
             $(
-            { id: concat!("normal_form.exact_inside_principal_range.", stringify!($h)), tier: quick, label: "complete",
-              func: concat!(stringify!($h), "::{into_degrees, into_positive_degrees, into_radians, into_positive_radians} [hues.rs], impl SignedAngle / UnsignedAngle for f32 [angle.rs]"),
-              desc: "every f32 angle already inside the principal range is returned unchanged, bit for bit (the rounding error of the stored angle is zero there): x in (-180, 180] for the signed form, x in [0, 360) for the unsigned form; the radian forms are the degree forms times pi/180; the positive radian form lies in [0, 2 pi] for every |x| <= 2^20" }
-            fn $name(g) {
+            { id: concat!("normal_form.signed_exact_inside_principal_range.", stringify!($h)), tier: $tier, label: "complete",
+              func: concat!(stringify!($h), "::into_degrees [hues.rs], impl SignedAngle for f32 [angle.rs]"),
+              desc: "every f32 angle x in (-180, 180] is returned unchanged, bit for bit, by the signed normal form (the rounding error of the stored angle is zero there, so 'within the rounding error of the stored angle' means exactly)" }
+            fn $sd(g) {
                 let x = g.f32();
-                g.assume(x.abs() <= 1048576.0);
+                g.assume(x > -180.0 && x <= 180.0);
                 cov!(g, x > 0.0 && x < 1.0e-3);
                 let h = palette::hues::$h::<f32>::from_degrees(x);
-                if x > -180.0 && x <= 180.0 {
-                    ob!("N4.signed_form_is_identity_inside_range", h.into_degrees().to_bits() == x.to_bits() || (x == 0.0 && h.into_degrees() == 0.0));
-                    ob!("N4.signed_radians_is_degrees_times_pi_over_180", h.into_radians().to_bits() == x.to_radians().to_bits() || (x == 0.0 && h.into_radians() == 0.0));
-                }
-                if x >= 0.0 && x < 360.0 {
-                    ob!("N4.unsigned_form_is_identity_inside_range", h.into_positive_degrees().to_bits() == x.to_bits() || (x == 0.0 && h.into_positive_degrees() == 0.0));
-                }
+                ob!("N4.signed_form_is_identity_inside_range", h.into_degrees().to_bits() == x.to_bits() || (x == 0.0 && h.into_degrees() == 0.0));
+            }
+            { id: concat!("normal_form.unsigned_exact_inside_principal_range.", stringify!($h)), tier: $tier, label: "complete",
+              func: concat!(stringify!($h), "::into_positive_degrees [hues.rs], impl UnsignedAngle for f32 [angle.rs]"),
+              desc: "every f32 angle x in [0, 360) is returned unchanged, bit for bit, by the unsigned normal form" }
+            fn $ud(g) {
+                let x = g.f32();
+                g.assume(x >= 0.0 && x < 360.0);
+                cov!(g, x > 0.0 && x < 1.0e-3);
+                let h = palette::hues::$h::<f32>::from_degrees(x);
+                ob!("N4.unsigned_form_is_identity_inside_range", h.into_positive_degrees().to_bits() == x.to_bits() || (x == 0.0 && h.into_positive_degrees() == 0.0));
+            }
+            { id: concat!("normal_form.signed_radians_inside_principal_range.", stringify!($h)), tier: thorough, label: "complete",
+              func: concat!(stringify!($h), "::into_radians [hues.rs], impl SignedAngle / RealAngle for f32 [angle.rs]"),
+              desc: "for every f32 angle x in (-180, 180] the signed radian accessor is x * (pi / 180) with one rounding (f32::to_radians), bit for bit: degree and radian accessors are consistent" }
+            fn $sr(g) {
+                let x = g.f32();
+                g.assume(x > -180.0 && x <= 180.0);
+                cov!(g, x > 0.0 && x < 1.0e-3);
+                let h = palette::hues::$h::<f32>::from_degrees(x);
+                ob!("N4.signed_radians_is_degrees_times_pi_over_180", h.into_radians().to_bits() == x.to_radians().to_bits() || (x == 0.0 && h.into_radians() == 0.0));
+            }
+            { id: concat!("normal_form.unsigned_radians_inside_principal_range.", stringify!($h)), tier: thorough, label: "complete",
+              func: concat!(stringify!($h), "::into_positive_radians [hues.rs], impl UnsignedAngle / RealAngle for f32 [angle.rs]"),
+              desc: "for every f32 angle x in [0, 360) the unsigned radian accessor is x * (pi / 180) with one rounding, bit for bit, and lies in [0, 2 pi]" }
+            fn $ur(g) {
+                let x = g.f32();
+                g.assume(x >= 0.0 && x < 360.0);
+                cov!(g, x > 0.0 && x < 1.0e-3);
+                let h = palette::hues::$h::<f32>::from_degrees(x);
                 let pr = h.into_positive_radians();
                 ob!("N4.positive_radians_in_0_2pi", pr >= 0.0 && pr <= 6.2831860);
-                ob!("N4.positive_radians_is_positive_degrees_times_pi_over_180", pr.to_bits() == h.into_positive_degrees().to_radians().to_bits() || pr == h.into_positive_degrees().to_radians());
+                ob!("N4.positive_radians_is_degrees_times_pi_over_180", pr.to_bits() == x.to_radians().to_bits() || (x == 0.0 && pr == 0.0));
             }
             )*
         }
     };
 }
-principal! { REG_C11X; principal_rgb: RgbHue, principal_lab: LabHue, principal_luv: LuvHue, principal_oklab: OklabHue, principal_cam16: Cam16Hue }
+principal! { REG_C11X; quick p_sd_rgb p_ud_rgb p_sr_rgb p_ur_rgb: RgbHue, quick p_sd_lab p_ud_lab p_sr_lab p_ur_lab: LabHue, quick p_sd_luv p_ud_luv p_sr_luv p_ur_luv: LuvHue,
+    quick p_sd_oklab p_ud_oklab p_sr_oklab p_ur_oklab: OklabHue, quick p_sd_cam16 p_ud_cam16 p_sr_cam16 p_ur_cam16: Cam16Hue }
 
 // ---------------- C13: mixed guard chains starting from an UNCLAMPED guard ----------------
 harnesses! { REG_C13X, "C13", "extra";
